@@ -379,8 +379,10 @@ def run_case(ctx, case):
                   list(raw_den.values()))
   if has_float and (samples == "frac" or isinstance(zspec, Fraction)):
     exact = False    # Python's float * Fraction is a (rounded) float
-  if samples == "frac" and isinstance(zspec, float):
-    exact = False    # a float zero (pre-input / default memory) + Fraction
+  if samples == "frac" and isinstance(zspec, (int, float)):
+    # a float zero contaminates Fractions; an int zero makes the first outputs
+    # int / int = float (true division by the gain) and then does the same
+    exact = False
   ctx.count("class:" + ("E" if exact else "T"))
   for i, (gv, wv) in enumerate(zip(got, want)):
     try:
